@@ -123,8 +123,16 @@ InsideSinkCall(cfg, obs, nst, b, t) ==
 InsideAnySinkCall(cfg, obs, nst, b) ==
   \E j \in Calls(obs) : obs[j].fr \in SinkNames(cfg) /\ obs[j].to = "S" /\ InsideP(nst.par, b, j)
 
+\* event b is a message to an upstream that itself failed earlier inside the same sink Pull (the
+\* broadcast loop of that Pull was still running when the member answered a nested Pull with its Error)
+AfterOwnErrorInPull(cfg, obs, nst, b) ==
+  \E j \in Calls(obs) : obs[j].fr \in SinkNames(cfg) /\ obs[j].to = "S" /\ obs[j].t = "P" /\ InsideP(nst.par, b, j)
+     /\ \E e \in (j + 1)..(b - 1) : IsCall(obs[e]) /\ obs[e].fr = obs[b].to /\ obs[e].to = "S" /\ obs[e].t = "E"
+            /\ InsideP(nst.par, e, j)
+
 Ctx(cfg, obs, nst, b) ==
   IF IsShare(cfg) /\ Len(cfg.sinks) >= 2 /\ NestedFanout(cfg, obs, nst, b) THEN "nested_fanout"
+  ELSE IF IsCall(obs[b]) /\ obs[b].fr = "S" /\ AfterOwnErrorInPull(cfg, obs, nst, b) THEN "in_pull_broadcast_after_own_error"
   ELSE IF InsideSinkCall(cfg, obs, nst, b, "P") THEN "in_pull_broadcast"
   ELSE IF InsideAnySinkCall(cfg, obs, nst, b) THEN "in_sink_call"
   ELSE ""
